@@ -5,7 +5,7 @@ From GoSecs Require Import Hsms.Supervisor.
 Import ListNotations.
 
 Definition target (ev : event) : cstate :=
-  match ev with EvTCPUp => NS | EvSelectAccepted => SEL | EvSelectLost => NS | _ => NC end.
+  match ev with EvUpC => NS | EvSelAccC => SEL | EvSelLostC => NS | _ => NC end.
 
 (** target of the last commit echo in an event list, if any *)
 Fixpoint let_ (l : list event) : option cstate :=
@@ -41,13 +41,18 @@ Lemma sf_char s ev cur s' o :
   queue s' = queue s /\ pc s' = None /\
   (closed s' = true \/
    (closed s' = closed s /\
-    ((st s' = st s /\ lastr s' = lastr s /\
-      ((ev = EvSelectLost /\ cur = SEL) \/ snd (transition cur ev) = false \/ is_echo ev = false))
-     \/ (exists next, transition cur ev = (next, true) /\ lastr s' = next /\
+    ((* nothing happened *)
+     (st s' = st s /\ lastr s' = lastr s /\
+      (is_echo ev = false \/ (target ev = cur -> lastr s = cur)))
+     (* an echo reported the state it announces; no store *)
+     \/ (is_echo ev = true /\ st s' = st s /\ lastr s' = cur /\ target ev = cur)
+     (* a transition of a non-echo event *)
+     \/ (is_echo ev = false /\ exists next, transition cur ev = (next, true) /\ lastr s' = next /\
                       (st s' = next \/ (next = cur /\ st s' = st s)))))).
 Proof.
   destruct s as [st0 cl q p l c nb d]. unfold step_finish. cbn [st clbit queue pc lastr closed nbuf dropped].
   intros H.
+  destruct (existsb is_upc q);
   destruct ev, cur, st0, l, cl; cbn in H;
     repeat match type of H with
            | context [fire ?b ?x ?y] => destruct (fire b x y) as [[? ?] ?]
@@ -57,8 +62,9 @@ Proof.
     first [ left; reflexivity
           | right; split; [reflexivity|];
             first [ left; split; [reflexivity|]; split; [reflexivity|];
-                    first [ left; split; reflexivity | right; left; reflexivity | right; right; reflexivity ]
-                  | right; eexists; split; [reflexivity|]; split; [reflexivity|];
+                    first [ left; reflexivity | right; intros Hx; first [ reflexivity | discriminate Hx ] ]
+                  | right; left; split; [reflexivity|]; split; [reflexivity|]; split; reflexivity
+                  | right; right; split; [reflexivity|]; eexists; split; [reflexivity|]; split; [reflexivity|];
                     first [ left; reflexivity | right; split; reflexivity ] ] ].
 Qed.
 
@@ -79,9 +85,9 @@ Qed.
 Lemma exec_Q s a s' o : Q s -> exec s a = (s', o) -> Q s'.
 Proof.
   intros HQ He. destruct a; cbn [exec] in He.
-  - eapply (commit_Q NC NS EvTCPUp); eauto.
-  - eapply (commit_Q NS SEL EvSelectAccepted); eauto.
-  - eapply (commit_Q SEL NS EvSelectLost); eauto.
+  - eapply (commit_Q NC NS EvUpC); eauto.
+  - eapply (commit_Q NS SEL EvSelAccC); eauto.
+  - eapply (commit_Q SEL NS EvSelLostC); eauto.
   - inversion He; subst; clear He. intros Hcl. cbn in Hcl. destruct (HQ Hcl) as [A B].
     assert (Hn : is_echo (inj_event i) = false) by (destruct i; reflexivity).
     split.
@@ -107,21 +113,20 @@ Proof.
     unfold pcq in A. rewrite Ep in A.
     split; [|intros e c Hx; rewrite Hp in Hx; discriminate Hx].
     unfold pcq. rewrite Hp, Hq.
-    destruct Hcase as [(Hs & Hl & Hwhy)|(next & Htr & Hl & Hs)].
-    + rewrite Hs, Hl.
+    destruct Hcase as [(Hs & Hl & Hwhy)|[(Hecho & Hs & Hl & Ht)|(Hne & next & Htr & Hl & Hs)]].
+    + (* nothing happened *)
+      rewrite Hs, Hl.
       destruct A as [A|A]; [left; exact A|].
       cbn [let_] in A.
       destruct (let_ (queue s)) as [t|] eqn:El; [right; exact A|].
-      (* the only pending echo was [ev], announcing the current state: none of the no-op cases applies *)
       destruct (is_echo ev) eqn:Eecho; [|discriminate A].
       inversion A as [At]. clear A.
       assert (Hcur : st s = cur) by (destruct B as [B|B]; [exact B|discriminate B]).
-      exfalso.
-      assert (Ht : target ev = cur) by (rewrite <- Hcur; exact At).
-      destruct Hwhy as [[E1 E2]|[E|E]].
-      * subst ev cur. cbn in Ht. discriminate Ht.
-      * subst cur. destruct ev; cbn in Eecho; try discriminate Eecho; cbn in Ht; rewrite <- Ht in E; cbn in E; discriminate E.
-      * discriminate E.
+      destruct Hwhy as [E|E]; [discriminate E|].
+      left. assert (Ht : target ev = cur) by congruence. rewrite (E Ht). exact Ht.
+    + (* an echo reported: lastr' = cur, st unchanged *)
+      rewrite Hs, Hl.
+      destruct B as [B|B]; [left; exact B|right; exact B].
     + rewrite Hl. destruct Hs as [Hs|[Hnc Hs]].
       * left. exact Hs.
       * rewrite Hs. subst next.
